@@ -302,6 +302,19 @@ class RefDeser:
             else:
                 # documented: unsupported members of a union are ignored
                 alts = [a for a in s.a if a.k != "unsup"]
+            # typing flattens nested unions and removes duplicate members:
+            # Optional[Optional[int]] is Optional[int], Optional[None] is None
+            flat = []
+            todo = list(alts)
+            while todo:
+                a = todo.pop(0)
+                if a.k == "opt" and not cs:
+                    todo[:0] = [a.a[0], P_NONE]
+                elif a.k == "union" and not cs:
+                    todo[:0] = [x for x in a.a if x.k != "unsup"]
+                elif a not in flat:
+                    flat.append(a)
+            alts = flat
             if "union_bytype_int" in self.relax and kd == "int":
                 # known finding: dispatch by type(data) has no `int` entry for a float
                 # alternative when all alternatives have distinct JSON classes
